@@ -119,6 +119,30 @@ def check_roundtrip(ctx, nested):
                 ctx.viol("C20.roundtrip", case, f"rebuilt tree has different clades: {sorted(map(sorted, R.clades()))}")
     except Exception as exc:  # noqa: BLE001
         ctx.viol("C20.roundtrip", case, f"raised {type(exc).__name__}: {exc}")
+    # history: two leaves of the SAME tree object are exchanged in place and the tree is decomposed again
+    lv = list(tree.iter_leaves())
+    if len(lv) >= 3:
+        a = lv[0]
+        b = next((x for x in reversed(lv) if x.up is not a.up), None)
+        if b is not None:
+            pa, pb = a.up, b.up
+            ia, ib = pa.children.index(a), pb.children.index(b)
+            pa.children[ia], pb.children[ib] = b, a
+            a.up, b.up = pb, pa
+            nested2 = nested_of_ete(tree)
+            M2, names2 = model_of(nested2)
+            hist = dict(case, history=f"leaves {a.name} and {b.name} exchanged in place, same tree object decomposed again")
+            try:
+                leaves2, triples2 = UT.tree_to_triples(tree)
+                ctx.count("mon.after_leaf_exchange")
+                bad = [t for t in triples2 if not displays(M2, names2, t)]
+                if bad:
+                    ctx.viol("C20.roundtrip", hist, f"after an in-place leaf exchange, emitted triple {bad[0]} is not displayed by the tree as it is now")
+                reb = UT.tree_from_triples(leaves2, triples2)
+                if reb is None or model_of(nested_of_ete(reb))[0].clades() != M2.clades():
+                    ctx.viol("C20.roundtrip", hist, "after an in-place leaf exchange, decomposing and rebuilding does not give the clades of the tree as it is now")
+            except Exception as exc:  # noqa: BLE001
+                ctx.viol("C20.roundtrip", hist, f"raised {type(exc).__name__}: {exc}")
     ctx.count("evaluations", 2)
     ctx.count("mon.roundtrip")
     ctx.sig(("rt", tuple(sorted(map(tuple, map(sorted, M.clades()))))), len(names) >= 3)
